@@ -64,7 +64,9 @@ const FAULTS: [Fault; 26] = [
 ];
 
 /// last line of every fault program: the first (and only) assignment of a variable
-const EPILOGUE: &str = ".set late_set_q = 7\n";
+/// (behind it a line comment that holds the closer of a block comment; the leading comment lines
+/// hold openers: comments of one kind mean nothing inside comments of another)
+const EPILOGUE: &str = ".set late_set_q = 7\n// */ end of the debug block\n; */\n";
 
 fn has_number_token(text: &str, n: usize) -> bool {
     let needle = n.to_string();
@@ -119,7 +121,7 @@ pub fn run(tier: Tier) -> i32 {
         let mut s = String::new();
         for i in 0..SHIFT - 1 {
             // (some end in a backslash: a comment is a comment, and a line is a line)
-            s.push_str(&format!("; leading comment line {}{}\n", if i % 2 == 0 { "a" } else { "b" }, if i % 97 == 13 { " see C:\\avr\\" } else { "" }));
+            s.push_str(&format!("{} leading comment line {}{}\n", if i % 101 == 7 { "// /*" } else if i % 103 == 9 { "; /*" } else { ";" }, if i % 2 == 0 { "a" } else { "b" }, if i % 97 == 13 { " see C:\\avr\\" } else { "" }));
         }
         // the one earlier definition the duplicate-label fault collides with
         s.push_str("dup_lbl_q:\n");
